@@ -381,8 +381,10 @@ def member_damage(case, ctx):
             if abs(amps[i] / ref.SD - 1.0) <= 1e-12:
                 # the member sits on the knee up to rounding of SD(50 %): either branch of the curve is a correct answer
                 ctx.label("member_on_knee")
-                alt = 0.0 if cyc[i] == 0 else cyc[i] / (ref.ND * _pow(amps[i] / ref.SD, -ref.k2_of(rule)) if math.isfinite(ref.k2_of(rule)) else math.inf)
-                if _close(g, alt):
+                k2 = ref.k2_of(rule)
+                branches = [cyc[i] / (ref.ND * _pow(amps[i] / ref.SD, -ref.k1)),
+                            cyc[i] / (ref.ND * _pow(amps[i] / ref.SD, -k2)) if math.isfinite(k2) else 0.0]
+                if any(_close(g, b) for b in branches):
                     continue
             if math.isnan(g) or not _close(g, w):
                 raise Violation("rule %s: damage of member %d (amplitude %r, cycles %r) = %r, reference n/N = %r" %
@@ -531,17 +533,18 @@ def gassner_elementary(case, ctx):
     ref, amps, cyc = _describe(case, ctx)
     n = len(amps)
     me = _rule_curve(c, "elementary")
-    raw = case["raw_curve"] and max(amps) >= ref.SD * (1 + 1e-12)       # own k_2 is irrelevant if cycles(max amplitude) is on the k_1 line
+    # the curve with its own k_2 can be used where cycles(max amplitude) is on the k_1 line, whether the implementation takes the
+    # largest occurring or the largest class amplitude: largest occurring amplitude > SD
+    occ_max = max(a for a, k in zip(amps, cyc) if k > 0)
+    raw = case["raw_curve"] and occ_max >= ref.SD * (1 + 1e-12)
     ctx.label("curve:raw" if raw else "curve:made_elementary")
     acc = (_pd_curve(c) if raw else me).gassner_miner_elementary
     want = ref.life(amps, cyc, "elementary")
     # the Gassner line through the largest amplitude that occurs (not affected by an empty top class)
-    occ_max = max(a for a, k in zip(amps, cyc) if k > 0)
-    if not raw or occ_max >= ref.SD * (1 + 1e-12):
-        line = float(np.asarray(acc.gassner(build(coll)).cycles(occ_max)))
-        if not _close(line, want):
-            raise Violation("gassner(collective).cycles(largest occurring amplitude %r) = %r, reference life %r" % (occ_max, line, want),
-                            bucket="gassner-ele:shifted-curve")
+    line = float(np.asarray(acc.gassner(build(coll)).cycles(occ_max)))
+    if not _close(line, want):
+        raise Violation("gassner(collective).cycles(largest occurring amplitude %r) = %r, reference life %r" % (occ_max, line, want),
+                        bucket="gassner-ele:shifted-curve")
     if top_class_empty(case) and ctx.known("F04"):
         return
     g = float(acc.gassner_cycles(build(coll)))
@@ -564,17 +567,20 @@ def gassner_haibach(case, ctx):
     ref, amps, cyc = _describe(case, ctx)
     n = len(amps)
     mh = _rule_curve(c, "haibach")
-    on_knee = abs(max(amps) / ref.SD - 1.0) <= 1e-12
-    # with the largest amplitude on the knee (up to rounding of SD) an own k_2 = inf makes cycles(max amplitude) ambiguous: use the Haibach curve
+    # asserted where the largest *occurring* amplitude is >= SD (then so is the largest class amplitude, whichever of the two
+    # the implementation refers the lifetime multiple to)
+    occ_max = max(a for a, k in zip(amps, cyc) if k > 0)
+    on_knee = abs(occ_max / ref.SD - 1.0) <= 1e-12 or abs(max(amps) / ref.SD - 1.0) <= 1e-12
+    # with that amplitude on the knee (up to rounding of SD) an own k_2 = inf makes cycles(max amplitude) ambiguous: use the Haibach curve
     raw = case["raw_curve"] and not on_knee
     acc = (_pd_curve(c) if raw else mh).gassner_miner_haibach
     ctx.label("curve:raw" if raw else "curve:made_haibach")
     if on_knee:
         ctx.label("max_amplitude_on_knee")
     A = float(acc.lifetime_multiple(build(coll)))
-    if max(amps) < ref.SD and not on_knee:
+    if occ_max < ref.SD and not abs(occ_max / ref.SD - 1.0) <= 1e-12:
         # docstring: lifetime multiple is inf there; formula: finite.  Reported, not asserted (DESIGN section 5).
-        ctx.tolerate("haibach_all_below_SD:multiple_%s" % ("inf" if math.isinf(A) else "finite"))
+        ctx.tolerate("haibach_%s_below_SD:multiple_%s" % ("all" if max(amps) < ref.SD else "occupied", "inf" if math.isinf(A) else "finite"))
         return
     if native_sd_differs(case) and ctx.known("FC11_a"):
         return
@@ -632,7 +638,7 @@ def effective_damage_sum(case, ctx):
         Aref = ref.life(amps, cyc, "elementary") / ref.N(max(amps), "elementary")
         if not _close(A, Aref):
             raise Violation("Miner elementary lifetime multiple %r, reference life/N(max amplitude) = %r" % (A, Aref), bucket="eds:A-elementary")
-    if rule == "haibach" and max(amps) >= ref.SD * (1 + 1e-12) and not native_sd_differs(case):
+    if rule == "haibach" and max(amps) >= ref.SD * (1 + 1e-12) and not native_sd_differs(case) and not top_class_empty(case):
         Aref = ref.life(amps, cyc, "haibach") / ref.N(max(amps), "haibach")
         if not _close(A, Aref):
             raise Violation("Miner Haibach lifetime multiple %r, reference life/N(max amplitude) = %r" % (A, Aref), bucket="eds:A-haibach")
